@@ -75,6 +75,57 @@ def func_import_module(names, globals_=(), memory=None, table=None, reexport=Fal
     return m, imports_spec, calls
 
 
+def dup_import_module(globals_=(), muts=(), memories=(), tables=()):
+    """the SAME global / memory / table imported several times: every import ENTRY owns an index, all entries with one (module, field)
+    denote one host object.  globals_: [(module, field)] immutable i32; muts: [(module, field)] mutable i32 (written through one index,
+    read through the others); memories / tables: [(module, field)] (memory and table imports are the LAST imports)."""
+    m = A.Module()
+    m.types = [A.FuncType([A.I32, A.I64], [A.I32]), A.FuncType([A.I32], [A.I32]), A.FuncType([], [A.I32])]
+    m.imports.append(A.Import(b"env", b"a", "func", 0))
+    imp = {"globals": {}}
+    val = {}
+    for k, (a, b) in enumerate(list(globals_) + list(muts)):
+        m.imports.append(A.Import(a, b, "global", A.GlobalType(A.I32, k >= len(globals_))))
+        imp["globals"][str(len(m.imports) - 1)] = val.setdefault((a, b), 1000 + 37 * k)     # one host cell per (module, field)
+    for a, b in tables:
+        m.imports.append(A.Import(a, b, "table", A.TableType(A.Limits(4, None))))
+    for a, b in memories:
+        m.imports.append(A.Import(a, b, "memory", A.Limits(1, 2)))
+    if not tables:
+        m.tables.append(A.TableType(A.Limits(4, 4)))
+    calls = []
+    nf = 1
+
+    def fn(name, ty, body):
+        m.funcs.append(A.Function(ty, [], body))
+        m.exports.append(A.Export(name, "func", nf + len(m.funcs) - 1))
+    fn(b"c0", 1, [I("local.get", 0), I("i64.const", 0x100000000), I("call", 0)])
+    fn(b"t", 1, [I("local.get", 0), I("i64.const", -7), I("local.get", 0), I("call_indirect", 0)])
+    ng = len(globals_)
+    for k in range(ng + len(muts)):
+        fn(b"g%d" % k, 2, [I("global.get", k)])
+    for k in range(len(muts)):
+        fn(b"s%d" % k, 1, [I("local.get", 0), I("global.set", ng + k), I("global.get", ng + k)])
+    if memories:
+        fn(b"ld", 1, [I("local.get", 0), I("i32.load8_u", 0, 0)])
+        fn(b"st", 1, [I("local.get", 0), I("i32.const", 0xA7), I("i32.store8", 0, 0), I("local.get", 0), I("i32.load8_u", 0, 0)])
+        m.datas = [A.DataSegment("active", b"twice", I("i32.const", 3), 0)]
+        for k in range(len(memories)):
+            m.exports.append(A.Export(b"mem%d" % k, "memory", k))
+        imp["mem_fill"] = {str(len(m.imports) - len(memories)): [[40, "0a0b0c"]]}
+    m.elems = [A.ElemSegment(0, I("i32.const", 1), [0, 1, 0])]
+    calls += [(b"c0", [("i32", 5)]), (b"t", [("i32", 1)]), (b"t", [("i32", 3)])]
+    for k in range(ng + len(muts)):
+        calls.append((b"g%d" % k, []))
+    for k in range(len(muts)):          # write through index k, read through every index
+        calls.append((b"s%d" % k, [("i32", 7000 + k)]))
+        for j in range(ng, ng + len(muts)):
+            calls.append((b"g%d" % j, []))
+    if memories:
+        calls += [(b"ld", [("i32", 3)]), (b"ld", [("i32", 41)]), (b"st", [("i32", 100)]), (b"ld", [("i32", 100)])]
+    return m, imp, calls
+
+
 def write(fn, note, m, imports_spec, calls, **extra):
     s = dict(note=note, hex=encode(m).hex(), imports_spec=imports_spec,
              calls=[[n.hex(), [[t, b] for t, b in a]] for n, a in calls])
@@ -135,6 +186,20 @@ def main():
     m, imp, calls = func_import_module(names, reexport=True, pad=4)
     write("import-same-function-twice-padded.json", "as import-same-function-twice.json, followed by four unexported functions: a translator "
           "that gives repeated imports no index of their own still finds every index in range and calls the wrong functions", m, imp, calls)
+    # 4d. the SAME global / memory / table imported several times (w2c2 994dbb2: one member of the instance per imported OBJECT)
+    m, imp, calls = dup_import_module(globals_=[(b"env", b"g"), (b"env", b"g"), (b"host", b"g"), (b"env", b"h"), (b"env", b"g")],
+                                      muts=[(b"env", b"m"), (b"env", b"m"), (b"host", b"m"), (b"env", b"m")])
+    write("duplicate-global-import.json", "the same global imported two and three times ([env.g, env.g, host.g, env.h, env.g]), next to a global of "
+          "another module with the same field; a MUTABLE global imported three times ([env.m, env.m, host.m, env.m]) is written through each "
+          "index and read through all of them: one host cell per (module, field), every index reads / writes that cell; the instance struct "
+          "has one member per imported object (duplicate members do not compile)", m, imp, calls)
+    m, imp, calls = dup_import_module(globals_=[(b"env", b"g")], memories=[(b"env", b"mem"), (b"env", b"mem")])
+    write("duplicate-memory-import.json", "the same memory imported twice (memory 0 and memory 1 are one host memory, pre-filled by the embedder); "
+          "both are exported (accessors mem0, mem1 return the one memory); loads / stores / the data segment address memory 0.  This V8 accepts "
+          "one memory: its reference run uses the module without the second import", m, imp, calls)
+    m, imp, calls = dup_import_module(globals_=[(b"env", b"g"), (b"env", b"g")], tables=[(b"env", b"tab"), (b"env", b"tab")])
+    write("duplicate-table-import.json", "the same table imported twice (table 0 and table 1 are one host table); the element segment and "
+          "call_indirect address table 0", m, imp, calls)
     # 5. element segments whose positions are far from the function indices
     m = A.Module()
     m.types = [A.FuncType([], [A.I32]), A.FuncType([A.I32], [A.I32])]
